@@ -35,6 +35,9 @@ BIN = "/tmp/replay_scratch/target/release/search"
 
 # (name, file, old, new, [properties expected to FIND it], occurrence index)
 MUTS = [
+    ("AdjacencyMatrix ArcsIterator shifts by bit + 1 (shift by 64 = endless loop when bit 63 is alone)", "repr/adjacency_matrix/mod.rs",
+     "                self.current_bits &= self.current_bits - 1;\n\n                let cell_index = self.current_base + bit;",
+     "                let cell_index = self.current_base + bit;\n                self.current_bits >>= bit + 1;\n                self.current_base = cell_index + 1;", ["C01", "C02"], 0),
     ("AdjacencyMatrix::complete allocates one spare block (invisible to every query, visible to ==)", "repr/adjacency_matrix/mod.rs",
      "        let mut digraph = Self::empty(order);\n\n        for u in 0..order {\n            for v in (u + 1)..order {\n                digraph.add_arc(u, v);\n                digraph.add_arc(v, u);",
      "        let mut digraph = Self::empty(order);\n        digraph.blocks.push(0);\n\n        for u in 0..order {\n            for v in (u + 1)..order {\n                digraph.add_arc(u, v);\n                digraph.add_arc(v, u);", ["C20"], 0),
